@@ -6,11 +6,14 @@ use std::time::Duration;
 
 use proptest::collection::vec;
 use proptest::prelude::*;
-use rodbus::server::{AddressFilter, RequestHandler, ServerHandlerMap};
+use rodbus::server::{AddressFilter, RequestHandler, ServerHandlerMap, TlsServerConfig};
 use rodbus::{ExceptionCode, UnitId};
 use serde::{Deserialize, Serialize};
-use tokio::io::AsyncWriteExt;
+use tokio::io::{AsyncRead, AsyncWrite, AsyncWriteExt};
 use tokio::net::{TcpListener, TcpStream};
+use tokio_rustls::rustls::pki_types::ServerName;
+
+use super::c09::{path, peer_client_config, Offer};
 
 use super::*;
 use crate::gen::arb_decode_any;
@@ -30,6 +33,16 @@ pub enum SOp {
     SetDecode(Decode),
     Shutdown,
     DropHandle,
+    /// TLS server: a TCP connection whose TLS handshake never completes (nothing sent, or only
+    /// the first bytes of a handshake record); it occupies a session like any other connection.
+    /// Plain TCP server: an ordinary connection.
+    StalledHandshake(u8),
+    /// ten decode-level changes in a row: more than a session's command queue holds, so every
+    /// session (also one that is still in its TLS handshake) has to keep consuming them
+    DecodeBurst(Decode),
+    /// TLS server: a TCP connection that sends plaintext instead of a ClientHello: accepted (the
+    /// oldest session goes if the server is full) and then closed. Plain TCP: connect + garbage.
+    HandshakeGarbage,
 }
 
 #[derive(Clone, Debug, PartialEq, Eq, Hash, Serialize, Deserialize)]
@@ -37,6 +50,9 @@ pub struct C15Case {
     pub max_sessions: u8,
     pub decode: Decode,
     pub ops: Vec<SOp>,
+    /// the server is a TLS server (create_tls_server_task) and the connections are TLS sessions
+    #[serde(default)]
+    pub tls: bool,
 }
 
 pub fn arb_c15() -> BoxedStrategy<C15Case> {
@@ -44,18 +60,22 @@ pub fn arb_c15() -> BoxedStrategy<C15Case> {
         8 => Just(SOp::Connect),
         2 => any::<u8>().prop_map(SOp::ClientClose),
         4 => any::<u8>().prop_map(SOp::Request),
-        2 => any::<u8>().prop_map(SOp::Garbage),
+        3 => any::<u8>().prop_map(SOp::Garbage),
         2 => any::<u8>().prop_map(SOp::HalfFrame),
         1 => arb_decode_any().prop_map(SOp::SetDecode),
+        1 => arb_decode_any().prop_map(SOp::DecodeBurst),
+        2 => (0u8..3).prop_map(SOp::StalledHandshake),
+        1 => Just(SOp::HandshakeGarbage),
     ];
     (
+        prop::bool::weighted(0.4),
         0u8..=4,
         arb_decode_any(),
         vec(op, 3..22),
         prop_oneof![2 => Just(None), 1 => Just(Some(SOp::Shutdown)), 1 => Just(Some(SOp::DropHandle))],
         0usize..6,
     )
-        .prop_map(|(max_sessions, decode, mut ops, end, extra)| {
+        .prop_map(|(tls, max_sessions, decode, mut ops, end, extra)| {
             if let Some(e) = end {
                 ops.push(e);
                 // operations after the end: everything must stay closed
@@ -67,6 +87,7 @@ pub fn arb_c15() -> BoxedStrategy<C15Case> {
                 max_sessions,
                 decode,
                 ops,
+                tls,
             }
         })
         .boxed()
@@ -89,7 +110,13 @@ enum Conn {
     /// live, but a partial frame is pending: (bytes already sent)
     LiveHalf(usize),
     Dead,
+    /// TLS only: accepted by the server, handshake never completed; cannot be probed
+    Stalled,
 }
+
+trait Duplex: AsyncRead + AsyncWrite + Unpin + Send {}
+impl<T: AsyncRead + AsyncWrite + Unpin + Send> Duplex for T {}
+type Link = Box<dyn Duplex>;
 
 pub fn check_c15(case: &C15Case) -> CaseResult {
     retry3(|slow| run_once(case, slow))
@@ -103,18 +130,39 @@ fn run_once(case: &C15Case, slow: u32) -> CaseResult {
         let listener = TcpListener::bind("127.0.0.1:0").await.map_err(|e| format!("INFRA: bind: {}", e))?;
         let addr = listener.local_addr().unwrap();
         let map = ServerHandlerMap::single(UnitId::new(1), Sentinel.wrap());
-        let (handle, task) = rodbus::server::create_tcp_server_task(
-            case.max_sessions as usize,
-            listener,
-            map,
-            AddressFilter::Any,
-            case.decode.to_rodbus(),
-        );
+        let (handle, task) = if case.tls {
+            let cfg = TlsServerConfig::new(
+                &path("ca1", "pem"),
+                &path("server_ok", "pem"),
+                &path("server_ok", "key"),
+                None,
+                super::c09::min_tls(12),
+                rodbus::client::CertificateMode::AuthorityBased,
+            )
+            .map_err(|e| format!("INFRA: tls config {}", e))?;
+            rodbus::server::create_tls_server_task(
+                case.max_sessions as usize,
+                listener,
+                map,
+                cfg,
+                AddressFilter::Any,
+                case.decode.to_rodbus(),
+            )
+        } else {
+            rodbus::server::create_tcp_server_task(
+                case.max_sessions as usize,
+                listener,
+                map,
+                AddressFilter::Any,
+                case.decode.to_rodbus(),
+            )
+        };
+        let connector = tokio_rustls::TlsConnector::from(peer_client_config(Offer::Both, Some("client_operator")));
         let join = tokio::spawn(task.run());
         let mut handle = Some(handle);
         let limit = (case.max_sessions as usize).max(1);
 
-        let mut conns: Vec<(TcpStream, Conn)> = Vec::new();
+        let mut conns: Vec<(Link, Conn)> = Vec::new();
         // model: accept order of sessions the server still tracks
         let mut tracked: Vec<usize> = Vec::new();
         let mut server_up = true;
@@ -125,28 +173,10 @@ fn run_once(case: &C15Case, slow: u32) -> CaseResult {
 
         for (opi, op) in case.ops.iter().enumerate() {
             match op {
-                SOp::Connect => {
+                SOp::Connect | SOp::StalledHandshake(_) | SOp::HandshakeGarbage => {
                     let r = tokio::time::timeout(wait, TcpStream::connect(addr)).await;
-                    match r {
-                        Ok(Ok(s)) => {
-                            let _ = s.set_nodelay(true);
-                            if server_up {
-                                if tracked.len() >= limit {
-                                    let oldest = tracked.remove(0);
-                                    if matches!(conns[oldest].1, Conn::LiveHalf(_)) {
-                                        labels.insert("evicted_mid_frame", ());
-                                    }
-                                    conns[oldest].1 = Conn::Dead;
-                                    evictions += 1;
-                                }
-                                tracked.push(conns.len());
-                                conns.push((s, Conn::Live));
-                            } else {
-                                // the listener may linger in the kernel for a moment; the
-                                // connection must never be served
-                                conns.push((s, Conn::Dead));
-                            }
-                        }
+                    let mut s = match r {
+                        Ok(Ok(s)) => s,
                         Ok(Err(_)) | Err(_) => {
                             if server_up {
                                 return Err(format!("op {}: connect to the running server failed", opi));
@@ -154,6 +184,71 @@ fn run_once(case: &C15Case, slow: u32) -> CaseResult {
                             labels.insert("connect_refused_after_shutdown", ());
                             continue;
                         }
+                    };
+                    let _ = s.set_nodelay(true);
+                    // what the connection becomes if the server takes it
+                    let (link, state): (Option<Link>, Conn) = match (op, case.tls) {
+                        (SOp::StalledHandshake(kind), true) => {
+                            let prefix: &[u8] = match kind {
+                                0 => &[],
+                                1 => &[0x16, 0x03, 0x01],
+                                _ => &[0x16, 0x03, 0x01, 0x02, 0x00, 0x01, 0x00, 0x01, 0xFC, 0x03, 0x03],
+                            };
+                            let _ = s.write_all(prefix).await;
+                            labels.insert("stalled_handshake", ());
+                            (Some(Box::new(s)), Conn::Stalled)
+                        }
+                        (SOp::HandshakeGarbage, true) => {
+                            if tracked.len() >= 2 && server_up {
+                                garbage_with_two_live = true;
+                            }
+                            let _ = s.write_all(&mbap_frame(1, 1, &[3, 0, 0, 0, 1])).await;
+                            labels.insert("handshake_garbage", ());
+                            (Some(Box::new(s)), Conn::Dead)
+                        }
+                        (_, true) => {
+                            let name = ServerName::try_from("test.com").unwrap();
+                            match tokio::time::timeout(wait, connector.connect(name, s)).await {
+                                Ok(Ok(t)) => (Some(Box::new(t)), Conn::Live),
+                                _ => (None, Conn::Dead),
+                            }
+                        }
+                        (SOp::HandshakeGarbage, false) => {
+                            let _ = s.write_all(&[0, 1, 0x12, 0x34, 0, 6, 1, 3, 0, 0, 0, 1]).await;
+                            (Some(Box::new(s)), Conn::Dead)
+                        }
+                        (_, false) => (Some(Box::new(s)), Conn::Live),
+                    };
+                    if server_up {
+                        // accepted: the oldest session goes if the server is full
+                        if tracked.len() >= limit {
+                            let oldest = tracked.remove(0);
+                            if matches!(conns[oldest].1, Conn::LiveHalf(_)) {
+                                labels.insert("evicted_mid_frame", ());
+                            }
+                            if conns[oldest].1 == Conn::Stalled {
+                                labels.insert("evicted_mid_handshake", ());
+                            }
+                            conns[oldest].1 = Conn::Dead;
+                            evictions += 1;
+                        }
+                        match link {
+                            Some(l) => {
+                                if state != Conn::Dead {
+                                    tracked.push(conns.len());
+                                }
+                                conns.push((l, state));
+                            }
+                            None => {
+                                return Err(format!("op {}: TLS handshake with the running server failed", opi));
+                            }
+                        }
+                    } else if let Some(l) = link {
+                        // the listener may linger in the kernel for a moment; the connection
+                        // must never be served
+                        conns.push((l, Conn::Dead));
+                    } else {
+                        labels.insert("connect_refused_after_shutdown", ());
                     }
                 }
                 SOp::ClientClose(i) => {
@@ -222,7 +317,7 @@ fn run_once(case: &C15Case, slow: u32) -> CaseResult {
                         continue;
                     }
                     let i = *i as usize % conns.len();
-                    if conns[i].1 != Conn::Dead {
+                    if conns[i].1 != Conn::Dead && conns[i].1 != Conn::Stalled {
                         if tracked.len() >= 2 {
                             garbage_with_two_live = true;
                         }
@@ -268,11 +363,29 @@ fn run_once(case: &C15Case, slow: u32) -> CaseResult {
                         labels.insert("half_frame", ());
                     }
                 }
-                SOp::SetDecode(d) => {
+                SOp::SetDecode(d) | SOp::DecodeBurst(d) => {
+                    let n = if matches!(op, SOp::DecodeBurst(_)) { 10 } else { 1 };
+                    if n > 1 && conns.iter().any(|c| c.1 == Conn::Stalled) {
+                        labels.insert("decode_burst_during_handshake", ());
+                    }
                     if let Some(h) = handle.as_mut() {
-                        let r = h.set_decode_level(d.to_rodbus()).await;
-                        if server_up && r.is_err() {
-                            return Err(format!("op {}: set_decode_level failed on a running server", opi));
+                        for k in 0..n {
+                            let level = if k % 2 == 0 { d.to_rodbus() } else { case.decode.to_rodbus() };
+                            match tokio::time::timeout(wait, h.set_decode_level(level)).await {
+                                Ok(r) => {
+                                    if server_up && r.is_err() {
+                                        return Err(format!("op {}: set_decode_level failed on a running server", opi));
+                                    }
+                                }
+                                Err(_) => {
+                                    return Err(format!(
+                                        "op {}: set_decode_level call {} of {} did not complete: the server task stopped processing commands",
+                                        opi,
+                                        k + 1,
+                                        n
+                                    ))
+                                }
+                            }
                         }
                     }
                 }
@@ -285,6 +398,9 @@ fn run_once(case: &C15Case, slow: u32) -> CaseResult {
                         if matches!(c.1, Conn::LiveHalf(_)) {
                             labels.insert("stopped_mid_frame", ());
                         }
+                        if c.1 == Conn::Stalled {
+                            labels.insert("stopped_mid_handshake", ());
+                        }
                         c.1 = Conn::Dead;
                     }
                     tracked.clear();
@@ -295,6 +411,9 @@ fn run_once(case: &C15Case, slow: u32) -> CaseResult {
                     for c in conns.iter_mut() {
                         if matches!(c.1, Conn::LiveHalf(_)) {
                             labels.insert("stopped_mid_frame", ());
+                        }
+                        if c.1 == Conn::Stalled {
+                            labels.insert("stopped_mid_handshake", ());
                         }
                         c.1 = Conn::Dead;
                     }
@@ -342,8 +461,19 @@ fn run_once(case: &C15Case, slow: u32) -> CaseResult {
                         }
                         conns[i].1 = Conn::Live;
                     }
+                    Conn::Stalled => {}
                     Conn::Dead => {
-                        match expect_closed(&mut conns[i].0, wait).await {
+                        let mut r = expect_closed(&mut conns[i].0, wait).await;
+                        // a TLS server may send an alert record (content type 21) on a connection
+                        // that never became a TLS session before it closes it
+                        if case.tls {
+                            if let Probe::Unexpected(b) = &r {
+                                if b.first() == Some(&21) {
+                                    r = expect_closed(&mut conns[i].0, wait).await;
+                                }
+                            }
+                        }
+                        match r {
                             Probe::Closed => {}
                             other => {
                                 return Err(format!(
